@@ -4,7 +4,7 @@
    origins/tag_files/preserves_origin, cand_iter, clean_file, occupied), Model/Commit.v (fsys, commit,
    finish_command, dir_cleanup_paths, fs_wf, tag_fs). *)
 From Regal Require Import Model.Commit Base.StrLit.
-From Regal Require Import Proofs.C13Main Proofs.Conserve Proofs.Commit Proofs.Roots.
+From Regal Require Import Proofs.C13Main Proofs.Conserve Proofs.Commit Proofs.Roots Proofs.RootsOrder Proofs.MovedRests Proofs.Explore.
 From Coq Require Import Permutation.
 
 (* The provider refines a finite map path -> content: Put and Delete are point updates, a successful
@@ -138,6 +138,29 @@ Theorem c13_root_contains_file :
 Proof. exact root_contains_file_main. Qed.
 Print Assumptions c13_root_contains_file.
 
+(* A moved file rests: the target of DirectoryPackageMismatch.Fix is <clean root>/<package path>/<base>,
+   and the rule (last n directory components = package path) holds there for every base name, so
+   also for the candidates of the rename loop: no file is moved twice, the sources of moves are
+   files that were loaded from disk. *)
+Theorem c13_moved_file_rests :
+  forall basedir file parts,
+  is_rooted (if is_nil basedir then dir file else basedir) = true ->
+  Forall regular parts -> regular (path_base file) ->
+  exists ds,
+    dpm_target basedir file parts = cpath (ds ++ [path_base file])
+    /\ Forall regular ds
+    /\ forall nb, regular nb -> dpm_violates (cpath (ds ++ [nb])) parts = false.
+Proof. exact moved_file_rests. Qed.
+Print Assumptions c13_moved_file_rests.
+
+(* config.GetPotentialRoots returns the roots in Go map order: the answer does not depend on it. *)
+Theorem c13_root_order_independent :
+  forall path roots roots',
+  (forall x, In x roots <-> In x roots') ->
+  find_closest_matching_root path roots = find_closest_matching_root path roots'.
+Proof. exact fcmr_order_independent. Qed.
+Print Assumptions c13_root_order_independent.
+
 (* End to end.  The command run on a tree whose files carry their own path as tag, after ANY
    sequence of fix results on the files it loaded and for ANY order in which the deleted/modified
    sets are walked: if it reports success, every original file is on disk exactly once (same
@@ -163,6 +186,17 @@ Theorem c13_fix_conserves :
   /\ (out <> OutDone -> out <> OutCommitFailed -> fs1 = tag_fs fs0).
 Proof. exact fix_conserves_lemma. Qed.
 Print Assumptions c13_fix_conserves.
+
+(* The correspondence check compares the observed tree with the list [explore] returns
+   (Check/C13Check.v); that list contains the result of the model's lint/fix loop for EVERY schedule
+   of violation order. *)
+Theorem c13_explore_complete :
+  forall rounds pol starting roots t (p : provider str) r sched,
+  In (fix_loop pv_rename (C13Check.lint_pkg_of t) (C13Check.lint_fix_of t) roots find_closest_matching_root
+               rounds C13Check.FUEL pol starting sched p r)
+     (C13Check.explore rounds pol starting roots t p r).
+Proof. exact explore_complete. Qed.
+Print Assumptions c13_explore_complete.
 
 (* ---- regression witnesses against the pinned commit (repaired in /repo) ---- *)
 
